@@ -64,6 +64,19 @@ def set_at(doc, path, value):
     doc[path[-1]] = value
 
 
+def module_global_names():
+    """names living in the namespace of the model module and of pydantic's BaseModel: a document is free to use
+    any of them as a key, an environment variable name or a string value"""
+    import openjd.model.v2023_09._model as mm
+    import pydantic
+    names = sorted(n for n in vars(mm) if isinstance(n, str))
+    names += [n for n in dir(pydantic.BaseModel) if n not in names]
+    return names
+
+
+GLOBAL_NAMES = module_global_names()
+
+
 def rand_junk(rng, depth):
     k = rng.random()
     if depth <= 0 or k < 0.45:
@@ -184,6 +197,26 @@ class C04(core.PropBase):
             doc = G.gen_env_template(rng) if kind == "env" else G.gen_job_template(rng)
             M.mutate(rng, doc, n=rng.choice([1, 2, 3, 4]), not_json=True)
             yield {"kind": kind, "doc": doc, "tag": "mutated"}
+        # 3a. strings spelled like a global of the model module / an attribute of BaseModel, used as an unknown
+        #     key at every object, as an environment variable name and as a string value (error reporting looks
+        #     names up in that namespace)
+        names = GLOBAL_NAMES if thorough else rng.sample(GLOBAL_NAMES, min(len(GLOBAL_NAMES), 90))
+        for kind in ("job", "env"):
+            doc = G.gen_env_template(rng, full=True) if kind == "env" else G.gen_job_template(rng, full=True)
+            objs = [p for p in [()] + all_paths(doc) if isinstance(get_at(doc, p), dict)]
+            strs = [p for p in all_paths(doc) if isinstance(get_at(doc, p), str)]
+            for nm in names:
+                d = copy.deepcopy(doc)
+                get_at(d, rng.choice(objs))[nm] = rng.choice([1, "x", None, {}, []])
+                yield {"kind": kind, "doc": d, "tag": "global-name"}
+                d = copy.deepcopy(doc)
+                set_at(d, rng.choice(strs), nm)
+                yield {"kind": kind, "doc": d, "tag": "global-name"}
+            d = copy.deepcopy(doc)
+            envs_ = M.envs(d)
+            if envs_:
+                envs_[0]["variables"] = {nm: "v" for nm in names[:40]}
+                yield {"kind": kind, "doc": d, "tag": "global-name"}
         # 3b. long strings and long reference names at every string position of a rich template (lengths around
         #     the powers of two where a fixed-width counter, buffer or recursion budget would give out)
         for b in range(2 if thorough else 1):
